@@ -28,6 +28,7 @@ func init() {
 			{ID: "C05-R6", Doc: "generated kernels in sync with the generator", Run: c05r6},
 			{ID: "C05-R7", Doc: "memoised compilations are keyed by (or restricted to zero of) every partitioning field", Run: c05r7},
 			{ID: "C05-R8", Doc: "row i is buffered for partition shards[i], once, and every buffered row is written", Run: c05r8},
+			{ID: "C05-R10", Doc: "every dependency of a task contributes its reader(s) to the task's input vector, in dependency order", Run: c05r10},
 			{ID: "C09-R12", Doc: "on the combining path row i is folded into the combiner of partition shards[i] (shared)", Run: c09r12},
 			{ID: "C11-R1", Doc: "hash and comparison address row i of a view at storage index i+off, so a key's shard does not depend on its position in a vector (shared)", Run: c11r1},
 			{ID: "C18-R8", Doc: "operators that key by a prefix reject inputs whose key prefix or key column types differ (Cogroup), so equal keys are hashed over the same columns by every producer (shared)", Run: c18r8},
